@@ -12,7 +12,8 @@ list is its length followed by its items. Unknown / malformed command → `bad-o
 
   <env>  = airWidth airPrepWidth logQd dim prepCommit? logBlowup logFinalPolyLen commitPowBits
            queryPowBits mmcs(0|1) valBits twoAdicity wordBits maxAlloc
-  <fri>  = commitCaps[] powWitnesses nQueries { nBatches { rows[] }* steps[] }* finalPolyLen
+  <fri>  = commitCaps[] powWitnesses nQueries { nBatches { rows[] }* steps[] siblings[] }* finalPolyLen
+           (steps = log_arity, siblings = sibling_values.len() of every commit-phase opening)
   <uni shape> = traceCap quotientCap randomCap? traceLocal traceNext prepLocal? prepNext?
            quotientChunks[] random? degreeBits <fri>
 
@@ -74,7 +75,8 @@ def env : P Env := do
 def query : P QueryShape := do
   let inputProof ← list (list nat)
   let steps ← list nat
-  pure { inputProof, steps }
+  let siblings ← list nat
+  pure { inputProof, steps, siblings }
 
 def fri : P FriShape := do
   let commitCaps ← list nat
